@@ -23,25 +23,38 @@ Print Assumptions C06_prefix.
 
 (* When no call is in flight the counter equals the size of the open transaction (every
    statement, deletions included, is counted by the conditional_commit that follows it)
-   and at most 50 writes are at risk. *)
-Theorem C06_bounded_loss : forall lazy c0 t0 h tr,
-  map fst tr = expand_all h ->
+   and at most 50 writes are at risk.  PARTIAL: for histories in which no bulk insert
+   failed after its first row ([Forall counted h]); see C06_bounded_loss_refuted. *)
+Theorem C06_bounded_loss_partial : forall lazy c0 t0 h tr,
+  Forall counted h -> map fst tr = expand_all h ->
   let s := run lazy (init c0 t0) tr in
   n_unc s = Z.of_nat (length (pending s)) /\ (length (pending s) <= 50)%nat /\
   recover s ++ pending s = c0 ++ writes_of (expand_all h).
 Proof. exact bounded_loss_quiescent. Qed.
-Print Assumptions C06_bounded_loss.
+Print Assumptions C06_bounded_loss_partial.
 
 (* A crash inside a call [o] (after any [k] of its micro-steps): at most 50 writes of the
    completed calls are missing; counting the call in flight, at most 50 + its own writes
    (an insert_many of m rows can have 50 + m writes pending just before it counts them). *)
-Theorem C06_bounded_loss_in_flight : forall lazy c0 t0 h o tr tro k,
-  map fst tr = expand_all h -> map fst tro = expand o ->
+Theorem C06_bounded_loss_in_flight_partial : forall lazy c0 t0 h o tr tro k,
+  Forall counted h -> map fst tr = expand_all h -> map fst tro = expand o ->
   let s := run lazy (init c0 t0) (tr ++ firstn k tro) in
   (length c0 + length (writes_of (expand_all h)) <= length (recover s) + 50)%nat /\
   (length (pending s) <= 50 + length (writes_of (expand o)))%nat.
 Proof. exact bounded_loss_any_cut. Qed.
-Print Assumptions C06_bounded_loss_in_flight.
+Print Assumptions C06_bounded_loss_in_flight_partial.
+
+(* FINDING.  Without [Forall counted h] the bound does not hold of the code as it is: an
+   insert_many whose executemany raises part-way (a row whose start/end overflows SQLite's
+   64-bit INTEGER, after rows that were fine) leaves the earlier rows in the open
+   transaction and never reaches conditional_commit, so they are at risk and uncounted;
+   repeating it accumulates without bound (62 pending, counter 0, nothing committed). *)
+Theorem C06_bounded_loss_refuted :
+  exists h tr, map fst tr = expand_all h /\
+    let s := run true (init [] 0) tr in
+    (length (pending s) > 50)%nat /\ n_unc s = 0 /\ recover s = [].
+Proof. exact bounded_loss_refuted. Qed.
+Print Assumptions C06_bounded_loss_refuted.
 
 (* create_bucket / update_bucket / delete_bucket: from any state, when the call returns
    nothing is pending — its own writes and everything buffered before are durable. *)
